@@ -61,13 +61,15 @@ CLAIMED = {
              "amount of a system is its use where it declares no production and max(0, use - declared) otherwise, step by "
              "step (C05_completion_value); it depends only on that system's components (C05_no_pooling) and is empty for "
              "systems without use; the final sort is a stable permutation ordered by id; completing twice adds nothing "
-             "(C05_completion_twice_changes_nothing: the completion part of idempotence). Correspondence: model vs "
+             "(C05_completion_twice_changes_nothing) and normalising a normalised set returns the very same list "
+             "(C05_normalize_idempotent: nothing left to complete, every system's auxiliary components recomputed to the same "
+             "components, a sorted list is determined by its per-system blocks; C05_read_components_are_normalized: what the "
+             "reader returns is a fixed point). Correspondence: model vs "
              "implementation on un-normalised component sets (serde JSON), multiset equality per system plus order of "
              "non-auxiliary components; the completion rule, 'nothing dropped' and idempotence (normalize twice) are "
              "recomputed on implementation outputs.",
         design_ref="DESIGN.md §6 C05",
-        note="Trusted: Coq kernel + vm_compute; model tied by differential testing. Partial: idempotence and the "
-             "text-level 'no line is dropped' are differential facts, not theorems.",
+        note="Trusted: Coq kernel + vm_compute; model tied by differential testing. Idempotence is exact in the rational model; the implementation recomputes auxiliary shares in f32 (bounded by the differential run). The text-level 'no line is dropped' is the file-level theorem of C18 plus the differential run.",
         technique="Coq proof over normalize model (lists, permutations, stable sort) + model/impl correspondence + recomputation oracle"),
     "C06": dict(
         text="Machine-checked theorems over the model of assign_aux_nepb_to_epb_services: a single-service system gets "
